@@ -1368,6 +1368,9 @@ func (self *Analyzer) ifExpression(node pAst.IfExpression) ast.AnalyzedIfExpress
 			// a bare `none` in the else branch takes the option type of the then branch
 			if elseBlock.Expression != nil && elseBlock.Expression.Kind() == ast.NoneLiteralExpressionKind {
 				resultType = thenBlock.ResultType
+			} else if self.CheckAny(thenBlock.ResultType) && !(thenBlock.Expression != nil && thenBlock.Expression.Kind() == ast.NoneLiteralExpressionKind) {
+				// the then branch is (partly) dynamically typed: the whole expression is, so that its value is validated where it is used
+				resultType = thenBlock.ResultType
 			}
 
 			// only if both branches return `never`, use `never`
